@@ -29,7 +29,7 @@ func init() {
 	})
 	register(&Spec{
 		ID: "C08",
-		Explanation: "Decides: R1 HEAD is installed with every GET install from the same handler value and middleware list; R2 HEAD is deleted with GET; R3 HEAD/OPTIONS/405 entries cannot be deleted by name; R4 validation (reserved names, method table membership, TRACE iff configured) dominates every install of a caller-supplied key; R5 the HEAD response writer swallows the body, counts it into Content-Length and exposes no bypass. " +
+		Explanation: "Decides: R1 HEAD is installed with every GET install from the same handler value and middleware list; R2 HEAD is deleted with GET; R3 HEAD/OPTIONS/405 entries cannot be deleted by name; R4 validation (reserved names, method table membership, TRACE iff configured) dominates every install of a caller-supplied key; R5 the HEAD response writer swallows the body, counts it into Content-Length and exposes no bypass; R6/R7 OPTIONS is answered for every live pattern and cannot disappear while another method remains (every install is accompanied by the OPTIONS and 405 entries; they are deleted only together, when nothing else is left). " +
 			"Not decided: equality of all other headers and of the status between HEAD and GET for arbitrary handlers.",
 		Assumptions: commonAssumptions,
 		Run: func(c *Ctx) {
@@ -38,6 +38,8 @@ func init() {
 			ruleReservedKeysNotDeletable(c, "R3", []string{"HEAD", "OPTIONS", ""}, "HEAD is served exactly as long as GET is registered and OPTIONS cannot be removed while another method remains: reserved keys are not deletable by name")
 			ruleValidationDominatesInstall(c, "R4", false)
 			ruleHeadWriter(c, "R5")
+			ruleAutoEntries(c, "R6")
+			ruleAutoEntriesDeletedTogether(c, "R7")
 		},
 	})
 }
